@@ -178,6 +178,7 @@ func runHarness(lp *LoadedPkg, hs *HarnessSpec, tier int, workers int, verbose b
 		var wg sync.WaitGroup
 		for w := 0; w < workers; w++ {
 			wg.Add(1)
+			w := w
 			go func() {
 				defer wg.Done()
 				ts := NewTermStore()
@@ -190,6 +191,11 @@ func runHarness(lp *LoadedPkg, hs *HarnessSpec, tier int, workers int, verbose b
 					panic(err)
 				}
 				sol.resetMode = hs.IntMode
+				if w == 0 && hs.smtlog != "" {
+					if f, err := os.Create(hs.smtlog); err == nil {
+						sol.log = f
+					}
+				}
 				ex := NewExplorer(ts, sol, sh)
 				ex.entry = hs.Entry
 				ex.tier = tier
@@ -250,6 +256,8 @@ func cmdCheck(args []string) int {
 	workers := fs.Int("workers", 0, "exploration workers (default: min(16, NumCPU))")
 	only := fs.String("only", "", "run only the named harness")
 	verbose := fs.Bool("v", false, "progress output")
+	budgetFlag := fs.Int("budget", 0, "override the per-harness time budget (seconds)")
+	smtlog := fs.String("smtlog", "", "log the SMT traffic of worker 0 to this file (debug)")
 	noNative := fs.Bool("nonative", false, "skip native validation/replay (debug only; result is never a VIOLATION)")
 	if len(args) < 1 {
 		usage()
@@ -325,6 +333,10 @@ func cmdCheck(args []string) int {
 			if *verbose {
 				fmt.Printf("== harness %s (%s.%s)\n", h.Name, g.pkg, h.Entry)
 			}
+			if *budgetFlag > 0 {
+				h.BudgetS = [2]int{*budgetFlag, *budgetFlag}
+			}
+			h.smtlog = *smtlog
 			r := runHarness(lp, h, tier, *workers, *verbose)
 			results = append(results, r)
 			rep.addHarness(r)
